@@ -21,7 +21,8 @@ EXPLANATION = (
     "alias written by hand (literal IDX_ macros in templates and sources, the grackle alias table, KROME's idx_ suffix rewriting); R7 the species "
     "collection is a set: Species.__hash__ reads only what every satisfied __eq__ disjunct forces equal (shared with C15.R2); R8 no lazily "
     "filtered Jinja sequence (map/select/reject.. without list) is consumed twice without being re-bound; R9 Network.species is a total, "
-    "name-tie-broken sort.")
+    "name-tie-broken sort; R13 the order of species (Species.__lt__) compares a key that holds the name, so that no two species tie and sorted() "
+    "of a set does not depend on the hash seed.")
 ASSUMPTIONS = [
     "uniqueness of aliases for user-defined element lists (e.g. CO vs Co) is not decided",
     "Jinja's map/select/reject/selectattr/rejectattr filters return one-shot generators",
@@ -66,7 +67,65 @@ def check(ctx):
     # computed from (shared with C14.R6) -- a stale view gives a species no slot, or a slot to a species that is gone
     from .c14 import _r6 as live_views
     ctx.absorb(lambda sub: live_views(sub, package(sub.tree)), "R12", only=lambda o: any(k in o.key for k in ("Network.species:", "Network.elements:")) and o.outcome != "MISSING")
+    order_key_rule(ctx, pkg, "R13")
     _stable_keys(ctx)
+
+
+def order_key_rule(ctx, pkg, rule="R13"):
+    """Network.species sorts SETS of species (`sorted(members)`, and the species itself as the tie-break of the connectivity key): the
+    result is independent of the set's iteration order -- which changes with the hash seed from one process to the next -- only if
+    `Species.__lt__` never lets two different species tie.  Species that differ have different names, so: the key `__lt__`
+    compares holds the name.  A key made of derived attributes only (basename, charge, alias ..) ties a gas species with its ice
+    twin, and their two slots are swapped at random between the run that writes the macro header and the run that writes a patch."""
+    from ..valueflow import subst as vsubst
+    fn = pkg.cls("Species").methods.get("__lt__")
+    K = "Species.__lt__:key holds the name"
+    if fn is None:
+        ctx.missing(rule, K, (SP, pkg.cls("Species").node.lineno), "Species.__lt__ vanished (sorted(species) needs it)")
+        return
+    ctx.saw(SP, "Species.__lt__")
+    if len(fn.args.args) != 2:
+        ctx.unrec(rule, K, (SP, fn.lineno), "unexpected signature of __lt__")
+        return
+    me, other = ("param", fn.args.args[0].arg), ("param", fn.args.args[1].arg)
+    fl = Flow(fn, SP, resolver=lambda name: pkg.resolve("Species", name)[1])
+
+    def leaves(v):
+        v = simp(v)
+        if v[0] in ("phi", "ifexp") and len(v) == 4:
+            return leaves(v[2]) + leaves(v[3])
+        return [v]
+    cmps = [v for f in fl.facts if f.kind == "return" for v in leaves(f.value) if v not in (("global", "NotImplemented"), ("const", False), ("const", None))]
+    if not cmps:
+        ctx.unrec(rule, K, (SP, fn.lineno), "no comparison is returned by Species.__lt__")
+        return
+    verdicts = []
+    for v in cmps:
+        if not (v[0] == "cmp" and len(v[1]) == 1 and v[1][0] in ("Lt", "Gt")):
+            verdicts.append(("unrec", v))
+            continue
+        a, b = v[2] if v[1][0] == "Lt" else (v[2][1], v[2][0])
+        if simp(vsubst(a, {me: other})) != b or not any(x == me for x in walk(a)):
+            verdicts.append(("unrec", v))       # the two sides are not one key taken of self and of the other species
+            continue
+        comps = list(a[1]) if a[0] == "tuple" and not any(e[0] == "star" for e in a[1]) else [a]
+        if any(c == ("attr", me, "name") for c in comps):
+            verdicts.append(("ok", v))
+        elif comps and all(c[0] == "attr" and c[1] == me and c[2] not in ("name", "_name") for c in comps):
+            verdicts.append(("bad", v))         # derived attributes only: species that share them tie
+        else:
+            verdicts.append(("unrec", v))
+    bad = [v for k, v in verdicts if k == "bad"]
+    unrec = [v for k, v in verdicts if k == "unrec"]
+    if bad:
+        ctx.bad(rule, K, (SP, fn.lineno), "Species.__lt__ orders by a key that leaves out the name: species that differ only in what the key omits (a gas species and its ice twin, "
+                "spellings with another prefix) tie, sorted() keeps them in set-iteration order, and that order -- hence the IDX_ slot of each -- changes with the hash seed from one "
+                "process to the next: artefacts written by separate runs (macro header, python constants, enzo tables) disagree",
+                expected="self.name < o.name (or a tuple key holding self.name)", found=show(bad[0])[:140])
+    elif unrec:
+        ctx.unrec(rule, K, (SP, fn.lineno), f"the comparison Species.__lt__ makes is not understood: {show(unrec[0])[:120]}")
+    else:
+        ctx.ok(rule, K, (SP, fn.lineno), "species are ordered by a key that holds the name: two different species never tie")
 
 
 def _stable_keys(ctx):
@@ -168,6 +227,8 @@ def _alias_rule(ctx, pkg):
         post += [(extra.line, r) for r in wr]
     v, wr = _peel_rewrites(v)
     post += [(st[0].line, r) for r in wr]
+    v_inner = v
+    _element_case_scope(ctx, fl)
     # two species are one ODE slot exactly when their aliases are equal: every rewrite of the alias must keep distinct
     # names distinct.  Deleting characters does not ('H2*' -> 'H2I' is the alias of 'H2').
     for ln, (what, pat, repl) in post:
@@ -176,7 +237,11 @@ def _alias_rule(ctx, pkg):
             ctx.bad("R6", k, (SP, ln), "the alias is rewritten by DELETING characters: species whose names differ only in the deleted characters (an excited state 'H2*' and 'H2', isomers 'c-C3H2'/'cC3H2') "
                     "get one identifier, hence one IDX_ macro and one ODE variable", expected="an injective function of (surface, basename, charge)", found=f"{what}({pat!r}, '')")
         elif repl is None:
-            ctx.unrec("R6", k, (SP, ln), "alias rewrite with a non-literal replacement")
+            if re.search(_ELEMENT_TABLES, str(pat)) and any(x in (("attr", SELF, "charge"), ("attr", SELF, "is_surface")) for x in walk(v_inner)):
+                ctx.bad("R6", "Species.alias:suffix outside the element-case rewriting", (SP, ln), _FUSE_MSG, expected="the table of element symbols rewrites the base name only; 'G' and the I/M run are attached afterwards",
+                        found=f"{what}({pat}) over {show(v_inner)[:80]}")
+            else:
+                ctx.unrec("R6", k, (SP, ln), "alias rewrite with a non-literal replacement")
         else:
             ctx.ok("R6", k, (SP, ln), f"characters are substituted by {repl!r}, none deleted (collisions between the substituted characters themselves are not decided)")
     out["line"] = st[0].line
@@ -233,6 +298,43 @@ def _alias_rule(ctx, pkg):
 
 class FoldError(Exception):
     pass
+
+
+_ELEMENT_TABLES = r"_known_elements|known_elements|periodic_table|isotopes_table|\.Symbol|_replacement|_standard_symbols"
+_FUSE_MSG = ("the table that re-spells upper-case element symbols is applied to the ASSEMBLED alias: the letters of the charge run (I / M) and of the phase marker (G) take part in the "
+             "replacement and fuse with the base name into an element symbol -- 'S+' -> 'SII' -> 'SiI', the alias of neutral 'SI' -- so two species share one IDX_ macro")
+
+
+def _element_case_scope(ctx, fl):
+    """The alias is <phase><base name><charge run>, and two species share a slot exactly when their aliases are equal.  A rewriting
+    of the text keyed by ELEMENT SYMBOLS (the upper-case -> standard spelling table: patterns are letters) is therefore confined to
+    the base name: run over text that already holds the 'G' / 'I..' / 'M..' letters, a symbol can match across the seam.  By role:
+    every local the getter (helpers put back in place) re-binds in a loop to a `.replace(..)` / re.sub of itself whose pattern comes
+    from an element table -- the text it starts from must not depend on the charge or the phase."""
+    for name, lst in fl.assigns.items():
+        for v, loops, guards, line, seq in lst:
+            if not loops:
+                continue
+            w = simp(v)
+            pat = None
+            if w[0] == "meth" and w[2] == "replace" and len(w[3]) >= 2 and w[1][0] == "carried" and w[1][1] == name:
+                pat = w[3][0]
+            elif w[0] == "meth" and w[1] == ("global", "re") and w[2] == "sub" and len(w[3]) >= 3 and w[3][2][0] == "carried" and w[3][2][1] == name:
+                pat = w[3][0]
+            if pat is None or pat[0] == "const" or not re.search(_ELEMENT_TABLES, show(pat)):
+                continue
+            inits = [e for e in lst if not e[1] and e[4] < seq]
+            if not inits:
+                continue
+            start = simp(inits[-1][0])
+            K = "Species.alias:suffix outside the element-case rewriting"
+            if any(x in (("attr", SELF, "charge"), ("attr", SELF, "is_surface")) for x in walk(start)):
+                ctx.bad("R6", K, (SP, line), _FUSE_MSG, expected="the table of element symbols rewrites the base name only; 'G' and the I/M run are attached afterwards",
+                        found=f"{name} = {show(start)[:100]}; then {name} = {show(w)[:80]} in a loop")
+            elif any(isinstance(x, tuple) and x and x[0] in ("unknown", "call", "meth", "acc", "carried", "after", "phi") for x in walk(start)) and start != ("attr", SELF, "basename"):
+                ctx.unrec("R6", K, (SP, line), f"the text the element-case table rewrites is not understood: {show(start)[:100]}")
+            else:
+                ctx.ok("R6", K, (SP, line), "the element-case table rewrites the base name before the phase marker and the charge run are attached")
 
 
 def class_table(pkg, cname, attr):
@@ -378,6 +480,9 @@ def _r2(ctx, pkg):
     # what the two properties compute may sit in helper methods they call
     bsrc = "\n".join(ast.unparse(f) for f in method_closure(pkg, "Species", bfn))
     asrc = "\n".join(ast.unparse(f) for f in method_closure(pkg, "Species", afn))
+    # the markers are looked for in the text of the getter and of the methods it calls: when the species is handed whole to other code
+    # (a module-level function, getattr / vars), what is read there is not in that text
+    escapes = re.search(r"[(,=]\s*self\s*[,)]|getattr\(\s*self\b|vars\(\s*self\b|self\.__dict__", re.sub(r"(?m)^\s*def .*$", "", asrc))
     disj, _ = eq_disjuncts(eqf, resolve=lambda name: pkg.resolve("Species", name)[1])
     ice = [d for d in disj if ("both", "is_surface") in d]
     compared = {l[1] for d in ice for l in d if l[0] == "eq"}
@@ -386,12 +491,18 @@ def _r2(ctx, pkg):
         if not stripped.get(attr) or attr not in compared:
             continue
         enc = marker in asrc
+        if not enc and escapes:
+            ctx.unrec("R2", f"alias re-encodes {attr}", (SP, afn.lineno), f"Species.alias hands the species itself to code outside the class ({escapes.group(0).strip()}): whether `{attr}` is encoded there is not read")
+            continue
         ctx.check(enc, "R2", f"alias re-encodes {attr}", (SP, afn.lineno),
                   f"`{attr}` is stripped by basename, compared by __eq__ and re-encoded by alias" if enc else
                   f"`{attr}` is stripped from the name by basename and compared by Species.__eq__/__hash__, but alias does not re-encode it: "
                   "#1H and #2H are different species with the one identifier GHI",
                   expected=f"alias depends on {attr}", found="alias = 'G' + basename + charge suffix")
-    ctx.check("is_surface" in asrc, "R2", "alias re-encodes the ice phase", (SP, afn.lineno), "the surface prefix stripped by basename comes back as 'G'")
+    if "is_surface" not in asrc and escapes:
+        ctx.unrec("R2", "alias re-encodes the ice phase", (SP, afn.lineno), "Species.alias hands the species itself to code outside the class: whether the phase is encoded there is not read")
+    else:
+        ctx.check("is_surface" in asrc, "R2", "alias re-encodes the ice phase", (SP, afn.lineno), "the surface prefix stripped by basename comes back as 'G'")
 
 
 # ------------------------------------------------------------------ R3
@@ -429,7 +540,23 @@ def _r4_items(ctx, rel, cfg):
     read as the loop over S it is (its variable being `x.alias`) -- which sequence an index is paired with is what matters"""
     # `{% set %}` names are replaced by what they stand for first (also in loop iterables: `{% set members = network.species %}
     # {% for s in members %}` iterates network.species)
-    return J.unmap_loops(J.propagate_sets(J.flatten(ctx.tree, rel, cfg)))
+    return J._map_exprs(J.unmap_loops(J.propagate_sets(J.flatten(ctx.tree, rel, cfg))), _recanon)
+
+
+def _recanon(e):
+    """the canonical spellings the parser gives an expression as written, given again after names were replaced by what they stand
+    for: iterating a dict iterates its keys (`d | first` is `d.keys() | first`), the first / last item of `X | list` is that of X,
+    `x["name"]` of an object is `x.name`"""
+    if not isinstance(e, tuple) or not e:
+        return e
+    e = tuple(_recanon(x) if isinstance(x, tuple) else x for x in e)
+    if e[0] == "filter" and e[1] in ("first", "last", "length") and not e[3] and not e[4] and e[2][0] == "filter" and e[2][1] == "list" and not e[2][3] and not e[2][4]:
+        e = ("filter", e[1], e[2][2], (), ())
+    if e[0] == "filter" and e[1] in ("first", "last", "list", "length", "join", "sort") and e[2][0] == "attr" and e[2][2] == "element_count":
+        e = ("filter", e[1], ("call", ("attr", e[2], "keys"), (), ())) + tuple(e[3:])
+    if e[0] == "item" and e[2][0] == "const" and isinstance(e[2][1], str) and e[2][1] in ("alias", "name", "element_count"):
+        e = ("attr", e[1], e[2][1])
+    return e
 
 
 def _jsubst(e, sets):
@@ -463,14 +590,47 @@ def _stream(items):
             yield it, st
         elif k == "out":
             e = _jsubst(it[1], sets)
-            parts = list(e[1]) if e[0] == "concat" else [e]
-            for p_ in parts:
+            for p_ in _printed_parts(e):
                 if p_[0] == "const" and isinstance(p_[1], str):
                     yield ("text", p_[1]) + tuple(it[2:]), st
                 else:
                     yield ("out", p_) + tuple(it[2:]), st
         else:
             yield it, st
+
+
+def _printed_parts(e):
+    """what `{{ e }}` prints as a sequence of constant texts and printed values, however the line is assembled: `a ~ b`,
+    `"IDX_%s = %d" | format(a, b)`, `"IDX_{} = {}".format(a, b)` (plain %s / %d / %i / {} fields only; anything else is one value)"""
+    if e[0] == "concat":
+        return [q for p_ in e[1] for q in _printed_parts(p_)]
+    fmt = args = None
+    if e[0] == "filter" and e[1] == "format" and e[2][0] == "const" and isinstance(e[2][1], str) and not e[4]:
+        fmt, args = e[2][1], list(e[3])
+        pieces = re.split(r"(%[sdi])", fmt)
+        if "%" in "".join(pieces[0::2]) or len(pieces[1::2]) != len(args) or len(args) < 2:
+            return [e]
+        out = []
+        for i, t in enumerate(pieces):
+            out.append(("const", t) if i % 2 == 0 else args[i // 2])
+        return [p_ for p_ in out if p_ != ("const", "")]
+    if e[0] == "call" and e[1][0] == "attr" and e[1][2] == "format" and e[1][1][0] == "const" and isinstance(e[1][1][1], str) and not e[3]:
+        fmt, args = e[1][1][1], list(e[2])
+        pieces = re.split(r"(\{\d*\})", fmt)
+        if "{" in "".join(pieces[0::2]) or "}" in "".join(pieces[0::2]) or len(args) < 2:
+            return [e]
+        out, auto = [], 0
+        for i, t in enumerate(pieces):
+            if i % 2 == 0:
+                out.append(("const", t))
+                continue
+            j = int(t[1:-1]) if t[1:-1] else auto
+            auto += 0 if t[1:-1] else 1
+            if j >= len(args):
+                return [e]
+            out.append(args[j])
+        return [p_ for p_ in out if p_ != ("const", "")]
+    return [e]
 
 
 def _loop_stream(loop):
@@ -494,6 +654,27 @@ def _plain(e):
             return e
 
 
+SELECTING = {"select", "reject", "selectattr", "rejectattr", "sort", "reverse", "unique", "batch", "slice", "first", "last", "random", "groupby", "dictsort"}
+
+
+def _seq_verdict(e, test, seq):
+    """'ok' when a loop over `e` (with the loop filter `test`) visits exactly the members of `seq` in order (`seq`, `seq | list`);
+    'wrong' when it is understood and does not: `seq` selected from / re-ordered / sliced, a loop filter, another sequence of the
+    same template object (network.elements for network.species);  'unknown' for anything else (a name of unknown origin, a filter
+    this rule does not know, a call)"""
+    base, fs = J.unfilter(e)
+    fs = [f_ for f_ in fs if not (f_[0] in ("list", "tuple") and not f_[1] and not f_[2])]
+    if base == seq:
+        if not fs:
+            return "wrong" if test is not None else "ok"
+        return "wrong" if any(f_[0] in SELECTING for f_ in fs) else "unknown"
+    if base[0] == "item" and base[1] == seq and base[2][0] == "slice":
+        return "wrong"
+    if base[0] == "attr" and base[1] == seq[1] and base[2] != seq[2] and base[1][0] == "name":
+        return "wrong"
+    return "unknown"
+
+
 def _def_loops(ctx, rel, prefix_re, seq, suffix_of, what, expected):
     """loops `for v in <seq>` whose body writes `<prefix><suffix(v)> <sep> loop.index0` (through {% set %} names or a macro alike)."""
     items = _r4_items(ctx, rel, {})
@@ -506,20 +687,21 @@ def _def_loops(ctx, rel, prefix_re, seq, suffix_of, what, expected):
                 hits.append((it, body))
     key = f"{rel.split('/')[-1]}:{what}"
     if len(hits) != 1:
-        # (several candidate loops: which of them defines the macros is not understood -- not evidence of a wrong definition)
-        (ctx.unrec if hits else ctx.missing)("R4", key, (rel, 0), f"expected one loop defining {expected}, found {len(hits)}")
+        # several loops (one per kind of species, say): which member gets which position is not understood -- never a verdict
+        (ctx.unrec if hits else ctx.missing)("R4", key, (rel, hits[0][0][5] if hits else 0), f"expected one loop defining {expected}, found {len(hits)}")
         return
     it, body = hits[0]
     outs = [x for x in body if x[0] == "out"]
     outs = [("out", _plain(x[1])) + tuple(x[2:]) for x in outs]
-    ok = it[2] == seq and it[7] is None and len(outs) == 2 and outs[0][1] == suffix_of(it[1]) and outs[1][1] == IDX0
+    ok = _seq_verdict(it[2], it[7], seq) == "ok" and len(outs) == 2 and outs[0][1] == suffix_of(it[1]) and outs[1][1] == IDX0
     if not ok:
         # VIOLATION only for a pairing that is understood and wrong: the right sequence filtered / re-ordered, another attribute of
         # the loop variable, a position computed from the loop counters alone.  Anything else (a counter kept in a namespace, a
         # sequence of unknown origin) is not understood.
         wrong, unknown = [], []
-        if not (it[2] == seq and it[7] is None):
-            (wrong if J.unfilter(it[2])[0] == seq else unknown).append(f"iterates {J.show(it[2])}")
+        sv = _seq_verdict(it[2], it[7], seq)
+        if sv != "ok":
+            (wrong if sv == "wrong" else unknown).append(f"iterates {J.show(it[2])}")
         if not (outs and outs[0][1] == suffix_of(it[1])):
             # another attribute of the loop variable, or an item picked by position out of the right sequence filtered / re-ordered
             resorted = bool(outs) and any(isinstance(x, tuple) and len(x) == 3 and x[0] == "item" and x[1] != seq and J.unfilter(x[1])[0] == seq for x in _walk(outs[0][1]))
@@ -533,6 +715,71 @@ def _def_loops(ctx, rel, prefix_re, seq, suffix_of, what, expected):
               f"{expected} is paired with loop.index0 over the unfiltered {J.show(seq)}",
               expected=f"for v in {J.show(seq)}: {expected.split('<')[0]}{{{{ {J.show(suffix_of(('name', 'v')))} }}}} {{{{ loop.index0 }}}}",
               found=f"for {J.show(it[1])} in {J.show(it[2])}: " + " ".join(J.show(o[1]) for o in outs))
+
+
+def _partition_count(v, attr, owner):
+    """`len(A) + len(B) + ..` with every term a selection `[.. for x in net.<attr> if <test of flags of x>]` of the SAME sequence:
+    -> (True, "") when the tests partition the sequence (exactly one holds for every member), (False, witness) when some member is
+    counted twice or not at all; None when the value is not such a sum or a test is not a boolean combination of flags `x.<flag>`.
+    The flags are taken as independent, except that no species is both a grain and a surface species (the parser sets one kind)."""
+    def terms(e):
+        if e[0] == "binop" and e[1] == "Add":
+            a, b = terms(e[2]), terms(e[3])
+            return None if a is None or b is None else a + b
+        if e[0] == "call" and e[1] == ("global", "len") and len(e[2]) == 1 and not e[3]:
+            return [e[2][0]]
+        return None
+    ts = terms(v)
+    if not ts or len(ts) < 2:
+        return None
+    tests, flags = [], set()
+
+    def ev(c, x, env):
+        if c == ("const", True) or c == ("const", False):
+            return c[1]
+        if c[0] == "attr" and c[1] == x:
+            return env[c[2]]
+        if c[0] == "unop" and c[1] == "Not":
+            return not ev(c[2], x, env)
+        if c[0] == "bool":
+            vals = [ev(y, x, env) for y in c[2]]
+            return all(vals) if c[1] == "And" else any(vals)
+        raise KeyError
+
+    def collect(c, x):
+        if c[0] == "attr" and c[1] == x:
+            flags.add(c[2])
+        elif c[0] == "unop" and c[1] == "Not":
+            collect(c[2], x)
+        elif c[0] == "bool":
+            for y in c[2]:
+                collect(y, x)
+        else:
+            raise KeyError
+    for t in ts:
+        if t[0] == "acc" and owner is not None:
+            t = acc_comp(owner, t[1]) or t
+        m = as_map(t)
+        if not m or not (m[2][0] == "attr" and m[2][2] == attr):
+            return None
+        try:
+            for c in m[3]:
+                collect(c, m[0])
+        except KeyError:
+            return None
+        tests.append((m[0], m[3]))
+    if len(flags) > 5 or len({as_map(t if t[0] != "acc" or owner is None else (acc_comp(owner, t[1]) or t))[2] for t in ts}) != 1:
+        return None
+    fl_ = sorted(flags)
+    import itertools as _it
+    for bits in _it.product((False, True), repeat=len(fl_)):
+        env = dict(zip(fl_, bits))
+        if env.get("is_grain") and env.get("is_surface"):
+            continue
+        hits = sum(1 for x, cs in tests if all(ev(c, x, env) for c in cs))
+        if hits != 1:
+            return False, f"a member with {', '.join(k + '=' + str(b) for k, b in env.items())} is counted {hits} times"
+    return True, ""
 
 
 def _r4_defs(ctx, pkg):
@@ -562,14 +809,44 @@ def _r4_defs(ctx, pkg):
             prev = ""
     for name, (seq, attr) in lists.items():
         it = found.get(name)
-        ok = it is not None and it[0] == "for" and it[2] == seq and it[7] is None and [x[1] for x in it[3] if x[0] == "out"] == [("attr", it[1], attr)]
-        ctx.check(ok, "R4", f"constants.py:{name}", (PYCONST, it[5] if it is not None and it[0] == "for" else 0),
-                  f"{name} lists .{attr} over the unfiltered {J.show(seq)} (position n = index n)", found=J.show(it[2]) if it is not None and it[0] == "for" else "missing")
+        key = f"constants.py:{name}"
+        if it is None:
+            ctx.missing("R4", key, (PYCONST, 0), f"no `{name} = [..]` found in the constants module")
+            continue
+        if it[0] != "for":
+            # written in another way (a join over a mapped sequence, a macro): which sequence it lists is not read here
+            ctx.unrec("R4", key, (PYCONST, it[2]), f"{name} is not written as a loop over a sequence: {J.show(it[1])[:80]}")
+            continue
+        outs = [_plain(x[1]) for x, _ in _stream(it[3]) if x[0] == "out"]
+        sv = _seq_verdict(it[2], it[7], seq)
+        named = len(outs) == 1 and outs[0] == ("attr", it[1], attr)
+        other_attr = len(outs) == 1 and outs[0][0] == "attr" and outs[0][1] == it[1] and outs[0][2] != attr
+        if sv == "unknown" or not (named or other_attr):
+            if sv == "wrong":
+                ctx.bad("R4", key, (PYCONST, it[5]), f"{name} lists a selection / another order of {J.show(seq)}: position n is no longer index n", found=J.show(it[2]))
+            else:
+                ctx.unrec("R4", key, (PYCONST, it[5]), f"what {name} lists is not understood: for {J.show(it[1])} in {J.show(it[2])}: " + " ".join(J.show(o) for o in outs)[:80])
+            continue
+        ctx.check(sv == "ok" and named, "R4", key, (PYCONST, it[5]),
+                  f"{name} lists .{attr} over the unfiltered {J.show(seq)} (position n = index n)", found=f"for {J.show(it[1])} in {J.show(it[2])}: " + " ".join(J.show(o) for o in outs))
     for name, seq in (("NELEM", NELEM), ("NSPEC", NSPEC)):
         it = found.get(name)
-        ok = it is not None and it[0] == "out" and J.canon(it[1]) == ("filter", "length", seq, (), ())
-        ctx.check(ok, "R5", f"constants.py:{name}", (PYCONST, it[2] if it is not None and it[0] == "out" else 0), f"{name} = {J.show(seq)} | length",
-                  found=J.show(it[1]) if it is not None and it[0] == "out" else "missing")
+        key = f"constants.py:{name}"
+        if it is None:
+            ctx.missing("R5", key, (PYCONST, 0), f"no `{name} = ..` found in the constants module")
+            continue
+        if it[0] != "out":
+            ctx.unrec("R5", key, (PYCONST, it[5]), f"{name} is not one printed value")
+            continue
+        c = J.canon(_recanon(it[1]))
+        if not (c[0] == "filter" and c[1] == "length"):
+            ctx.unrec("R5", key, (PYCONST, it[2]), f"{name} is not the length of a sequence: {J.show(it[1])[:80]}")
+            continue
+        sv = _seq_verdict(c[2], None, seq)
+        if sv == "unknown":
+            ctx.unrec("R5", key, (PYCONST, it[2]), f"{name} counts a sequence this rule does not know: {J.show(c[2])[:80]}")
+            continue
+        ctx.check(sv == "ok", "R5", key, (PYCONST, it[2]), f"{name} = {J.show(seq)} | length", found=J.show(it[1]))
     # render.py summary and NetworkConfiguration
     # by role: the lists are what is stored under summary["list_of_..."], in whichever method of the command builds the table
     # (a `for key, names in {..}.items(): summary[f"list_of_{key}"] = names` loop is one store per entry)
@@ -668,6 +945,11 @@ def _r4_defs(ctx, pkg):
             continue
         bv, body, base, ifs = m
         ok = body == ("attr", bv, fld) and not ifs and base[0] == "attr" and base[2] == attr and base[1][0] != "const"
+        # understood and wrong: one field of each member of a sequence of the network -- another field, another sequence, or a selection.
+        # An entry computed in another way (a call on the member, a nested attribute) is not understood.
+        if not ok and not (body[0] == "attr" and body[1] == bv and base[0] == "attr"):
+            ctx.unrec("R4", key, (RENDER, sf.line), f"summary[{skey!r}]: what is listed per member is not understood: [{show(body)[:60]} for .. in {show(base)[:60]}]")
+            continue
         ctx.check(ok, "R4", key, (RENDER, sf.line), f"{nm} = [x.{fld} for x in net.{attr}] (same sequence, same order)",
                   found=f"[{show(body)} for .. in {show(base)}{' if ' + ' and '.join(show(c) for c in ifs) if ifs else ''}]")
     for name, f, v in counts:
@@ -677,10 +959,26 @@ def _r4_defs(ctx, pkg):
         if owner is not None:
             v = at_call_site(owner, v)
         ok = False
+        m = None
         if v[0] == "call" and v[1] == ("global", "len") and len(v[2]) == 1 and not v[3]:
             # the length of the sequence itself, or of a list with one entry per member of it (unfiltered, one-to-one)
-            m = as_map(v[2][0])
+            arg = v[2][0]
+            if arg[0] == "acc" and owner is not None:
+                arg = acc_comp(owner, arg[1]) or arg
+            m = as_map(arg)
             ok = bool(m) and not m[3] and m[2][0] == "attr" and m[2][2] == attr and m[2][1][0] != "const"
+        part = _partition_count(v, attr, owner) if not ok else None
+        if part is not None:
+            okp, why = part
+            ctx.check(okp, "R5", f"render.py summary:{name}", (RENDER, f.line),
+                      f"{name} adds up the sizes of selections of net.{attr} that partition it" if okp else
+                      f"{name} adds up the sizes of selections of net.{attr} that do not partition it ({why}): the count disagrees with NSPECIES / the listed names",
+                      expected=f"len(net.{attr})", found=show(v)[:100])
+            continue
+        if not ok and not (m and m[2][0] == "attr" and m[2][1][0] in ("param", "global", "attr", "call", "meth")):
+            # not the length of a list built from an attribute of the network object: what is counted is not understood
+            ctx.unrec("R5", f"render.py summary:{name}", (RENDER, f.line), f"{name} is not the length of a network sequence: {show(v)[:80]}")
+            continue
         ctx.check(ok, "R5", f"render.py summary:{name}", (RENDER, f.line), f"{name} = len(net.{attr})", found=show(v)[:60])
     ctx.floor("R5", "render.py summary counts", len(counts), 2, (RENDER, h.lineno))
     ci = pkg.cls("NetworkConfiguration")
@@ -700,19 +998,49 @@ def _r4_defs(ctx, pkg):
                 ctx.unrec("R4", f"NetworkConfiguration:{f.target}", (CONF, f.line), f"{f.target} is not a list built from a network sequence: {show(val)[:100]}")
                 continue
             ok = bool(m) and m[1] == ("attr", m[0], fld) and m[2] == seq and not m[3]
+            # understood and wrong: a list over an attribute of the network argument that is another one / filtered / another field
+            if not ok and not (m[2][0] == "attr" and m[2][1] == N and m[1][0] == "attr" and m[1][1] == m[0]):
+                ctx.unrec("R4", f"NetworkConfiguration:{f.target}", (CONF, f.line), f"{f.target} is not a list of one field over a sequence of the network argument: {show(val)[:100]}")
+                continue
             ctx.check(ok, "R4", f"NetworkConfiguration:{f.target}", (CONF, f.line), f"{f.target} = [x.{fld} for x in network.{seq[2]}]", found=show(simp(f.value))[:80])
     # enzo header
     ctx.saw(ENZOH)
     items = _r4_items(ctx, ENZOH, {})
-    loops = [it for it, st in J.walk_items(items) if it[0] == "for"]
-    ok_all = len(loops) == 2
-    for it in loops:
-        outs = [x[1] for x in it[3] if x[0] == "out"]
-        ok = it[2] == NSPEC and it[7] is None and outs and outs[0] == ("attr", it[1], "alias")
-        ok_all = ok_all and ok
-    ctx.check(ok_all, "R4", "naunet_enzo.h:A_ table", (ENZOH, loops[0][5] if loops else 0),
-              "A_<alias> definitions and A_Table[NSPECIES] both range over the unfiltered network.species in order",
-              found="; ".join(J.show(it[2]) for it in loops))
+    # by role: the loops that write `A_<..>` -- the definitions and the positional table
+    loops = []
+    for it, st in _stream(items):
+        if it[0] == "for":
+            body = _loop_stream(it)
+            if body is not None and re.search(r"\bA_\x00", "".join(x[1] if x[0] == "text" else "\x00" for x in body)):
+                loops.append((it, body))
+    key = "naunet_enzo.h:A_ table"
+    if len(loops) != 2:
+        (ctx.unrec if loops else ctx.missing)("R4", key, (ENZOH, loops[0][0][5] if loops else 0), f"expected the A_<alias> definitions and the A_Table loop, found {len(loops)} loops writing A_<..>")
+    else:
+        verdicts, found = [], []
+        for it, body in loops:
+            # the value printed right after `A_`
+            suffix, prev = None, ""
+            for x in body:
+                if x[0] == "text":
+                    prev += x[1]
+                else:
+                    if re.search(r"\bA_$", prev) and suffix is None:
+                        suffix = _plain(x[1])
+                    prev = ""
+            sv = _seq_verdict(it[2], it[7], NSPEC)
+            found.append(f"for {J.show(it[1])} in {J.show(it[2])}: A_{J.show(suffix) if suffix else '?'}")
+            if suffix == ("attr", it[1], "alias") and sv == "ok":
+                verdicts.append("ok")
+            elif sv == "wrong" or (sv == "ok" and suffix is not None and suffix[0] == "attr" and suffix[1] == it[1]):
+                verdicts.append("wrong")
+            else:
+                verdicts.append("unknown")
+        if "wrong" not in verdicts and "unknown" in verdicts:
+            ctx.unrec("R4", key, (ENZOH, loops[0][0][5]), "a loop writing A_<..> is not understood: " + "; ".join(found))
+        else:
+            ctx.check("wrong" not in verdicts, "R4", key, (ENZOH, loops[0][0][5]),
+                      "A_<alias> definitions and A_Table[NSPECIES] both range over the unfiltered network.species in order", found="; ".join(found))
 
 
 # ------------------------------------------------------------------ R4 uses in templates
@@ -774,6 +1102,11 @@ def _r4_uses(ctx):
                 if src is None or var is None or (is_elem and e != _first_key(var) and not (J.names_of(e) <= {var[1]})):
                     ctx.unrec("R4", key, (rel, it[2]), f"IDX_{'ELEM_' if is_elem else ''}{{{{ {J.show(e)} }}}}: the item the suffix is taken from is not a variable of an enclosing loop over a known sequence")
                     continue
+                sv = _seq_verdict(src, None, want_seq)
+                rooted = src[0] == "attr" and src[1][0] == "name"          # a sequence of a template object: network.x, species.x
+                if sv != "ok" and not (rooted or sv == "wrong"):
+                    ctx.unrec("R4", key, (rel, it[2]), f"IDX_{'ELEM_' if is_elem else ''}{{{{ {J.show(e)} }}}}: the loop takes its items from {J.show(src)}, a sequence this rule does not know")
+                    continue
                 if is_elem:
                     ok = src == want_seq and e == _first_key(var)
                     ctx.check(ok, "R4", key, (rel, it[2]), "the element macro used is the one the header defines for an element of network.elements",
@@ -813,15 +1146,24 @@ def _r4_uses(ctx):
                             and re.search(r"IDX_(ELEM_)?$", str(x[3][1][1])):
                         is_elem = "IDX_ELEM_" in x[3][1][1]
                         inner = x[2]
+                        while inner[0] == "filter" and inner[1] == "list" and not inner[3] and not inner[4]:
+                            inner = inner[2]                    # `| list` in the middle of the chain changes nothing
+                        key = f"{rel.split('/')[-1]}:line {line}:map prefix {x[3][1][1]}"
+                        n2 += 1
                         if is_elem:
                             want = ("filter", "map", ("filter", "map", NELEM, (), (("attribute", ("const", "element_count")),)), (("const", "first"),), ())
                             ok = inner == want
+                            understood = ok or (inner[0] == "filter" and inner[1] == "map" and J.unfilter(inner)[0][0] == "attr" and J.unfilter(inner)[0][1] == ("name", "network"))
                         else:
                             ok_inner = inner[0] == "filter" and inner[1] == "map" and inner[4] == (("attribute", ("const", "alias")),)
                             base = J.unfilter(inner[2])[0] if ok_inner else None
                             ok = ok_inner and base == NSPEC
-                        key = f"{rel.split('/')[-1]}:line {line}:map prefix {x[3][1][1]}"
-                        n2 += 1
+                            # understood and wrong: another attribute mapped, or the names of another sequence of the network
+                            understood = ok or (inner[0] == "filter" and inner[1] == "map" and not inner[3] and len(inner[4]) == 1 and inner[4][0][0] == "attribute"
+                                                and J.unfilter(inner[2])[0][0] == "attr" and J.unfilter(inner[2])[0][1] == ("name", "network"))
+                        if not understood:
+                            ctx.unrec("R4", key, (rel, line), f"the names the macro prefix is mapped over are not understood: {J.show(inner)[:120]}")
+                            continue
                         ctx.check(ok, "R4", key, (rel, line),
                                   "the mapped macro names come from (a selection of) the sequence the header enumerates, with the same suffix", found=J.show(inner)[:120])
     ctx.floor("R4", "mapped IDX_ names", n2, 6)
@@ -853,16 +1195,25 @@ def _r6(ctx, pkg, rule):
     for rel in J.all_templates(ctx.tree):
         if "/tests/" in rel:
             continue
-        for m in re.finditer(r"\bIDX_(?!ELEM_)([A-Za-z0-9_]+)\b", ctx.tree.read(rel)):
+        # (template comments {# .. #} print nothing)
+        for m in re.finditer(r"\bIDX_(?!ELEM_)([A-Za-z0-9_]+)\b", re.sub(r"\{#.*?#\}", "", ctx.tree.read(rel), flags=re.S)):
             t = m.group(1)
             if t in ("TGAS",):
                 continue
             lits.setdefault(t, rel)
     for f in pkg.files:
-        for m in re.finditer(r"IDX_(?!ELEM_)([A-Za-z0-9]+)\b", ctx.tree.read(f)):
-            t = m.group(1)
-            if t not in ("TGAS",) and not t.startswith("ELEM"):
-                lits.setdefault(t, f)
+        # only text the program can print: the string constants of the module (f-string pieces included) -- not its comments, not its
+        # docstrings (`# n(IDX_X) -> y[IDX_X]` explains a rewriting, it names no species)
+        mod = pkg.modules[f]
+        docs = {id(st.value) for n in ast.walk(mod) if isinstance(n, (ast.Module, ast.ClassDef, ast.FunctionDef, ast.AsyncFunctionDef)) for st in n.body[:1]
+                if isinstance(st, ast.Expr) and isinstance(st.value, ast.Constant) and isinstance(st.value.value, str)}
+        for c in ast.walk(mod):
+            if not (isinstance(c, ast.Constant) and isinstance(c.value, str) and id(c) not in docs):
+                continue
+            for m in re.finditer(r"IDX_(?!ELEM_)([A-Za-z0-9]+)\b", c.value):
+                t = m.group(1)
+                if t not in ("TGAS",) and not t.startswith("ELEM"):
+                    lits.setdefault(t, f)
     n = 0
     for t, where in sorted(lits.items()):
         n += 1
@@ -891,6 +1242,10 @@ def _r6(ctx, pkg, rule):
     want = {"p": r"\1II", "m": r"\1M", ")": r"\1I)"}
     if tab != want and unresolved:
         ctx.unrec("R6", "KROME idx_ suffixes", (kfile, unresolved[0][1]), f"a regular-expression rewriting of the rate text has a pattern / replacement that is not a literal: {unresolved[0][0][:80]}")
+    elif not tab:
+        # no idx_ rewriting was found where this rule looks (rateexpr, the methods / module functions it calls): where the suffixes
+        # are translated is not known -- no verdict on how
+        ctx.unrec("R6", "KROME idx_ suffixes", (kfile, kfn.lineno), "no regular-expression rewriting of `idx_..` was found in KROMEReaction.rateexpr or the helpers it calls")
     else:
         ctx.check(tab == want, "R6", "KROME idx_ suffixes", (kfile, kfn.lineno),
                   "idx_Xp -> IDX_XII, idx_Xm -> IDX_XM, idx_X) -> IDX_XI): the suffixes Species.alias gives to charge +1, -1, 0", expected=str(want), found=str(tab))
@@ -959,6 +1314,13 @@ def regex_rewrites(pkg, cname, fn):
                         m = {}
                     new += [dict(r, **m) for r in rows]
                 rows = new or rows
+        # ... or the fold over one: `reduce(lambda text, row: row[0].sub(row[1], text), TABLE, start)` visits the rows in order
+        for rd in ast.walk(f):
+            if isinstance(rd, ast.Call) and ast.unparse(rd.func) in ("reduce", "functools.reduce") and len(rd.args) == 3 and isinstance(rd.args[0], ast.Lambda) \
+                    and len(rd.args[0].args.args) == 2 and any(n is c for n in ast.walk(rd.args[0].body)):
+                tab = table(rd.args[1], f)
+                if tab is not None:
+                    rows = [dict(r, **{rd.args[0].args.args[1].arg: el}) for el in tab.elts for r in rows]
         return rows
 
     def text(e, env, f, depth=0):
@@ -968,6 +1330,9 @@ def regex_rewrites(pkg, cname, fn):
             return None
         if isinstance(e, ast.Call) and ast.unparse(e.func) == "re.compile" and e.args:
             return text(e.args[0], env, f, depth + 1)
+        if isinstance(e, ast.Subscript) and isinstance(e.value, ast.Name) and e.value.id in env and isinstance(env[e.value.id], (ast.Tuple, ast.List)) \
+                and isinstance(e.slice, ast.Constant) and type(e.slice.value) is int and -len(env[e.value.id].elts) <= e.slice.value < len(env[e.value.id].elts):
+            return text(env[e.value.id].elts[e.slice.value], env, f, depth + 1)          # row[0] of the table row the loop / fold is at
         if isinstance(e, ast.Name):
             if e.id in env:
                 return text(env[e.id], env, f, depth + 1)
@@ -1063,7 +1428,11 @@ def hash_contract(ctx, pkg, rule="R7"):
                 # reads only names bound in the class body, but they are re-bound somewhere: whether they differ between instances is not decided
                 ctx.unrec(rule, f"hash vs eq[{label}]", (SP, hf.lineno), f"the hash of an electron reads class-level names that are not provably constant: {sorted(el[0][1])}")
                 continue
-            ctx.check(len(el) == 1 and not el[0][1], rule, f"hash vs eq[{label}]", (SP, hf.lineno), "equal electrons hash to the same constant")
+            if len(el) != 1:
+                # no / several return paths under `self.is_electron`: how electrons are hashed is not read (never a verdict)
+                ctx.unrec(rule, f"hash vs eq[{label}]", (SP, hf.lineno), f"expected one return path of __hash__ under `self.is_electron`, found {len(el)}")
+                continue
+            ctx.check(not el[0][1], rule, f"hash vs eq[{label}]", (SP, hf.lineno), "equal electrons hash to the same constant", found=f"the electron's hash reads {sorted(el[0][1])}")
             continue
         forced = {l[1] for l in d if l[0] == "eq"} | {l[1] for l in d if l[0] == "both"}
         if "name" in forced:
@@ -1217,6 +1586,19 @@ def _r11(ctx, pkg):
                 mr = as_map(rhs)
                 ok = lhs == body and base == ("attr", ("param", "network"), "species") and bool(mr) and mr[1] == ("call", ("global", "Species"), (mr[0],), ()) \
                     and mr[2] in (("attr", ("global", "EnzoPatch"), table), ("attr", SELF, table), ("attr", ("param", "cls"), table)) and not mr[3]
+        # understood and wrong: a selection from network.species by a test that compares spellings (an attribute of the species, or the
+        # species against raw names), or the opposite membership test.  Anything else is not understood.
+        wrong = False
+        if m and not ok and len(m[3]) == 1 and m[3][0][0] == "cmp" and len(m[3][0][1]) == 1 and m[3][0][1][0] in ("In", "NotIn") and m[2] == ("attr", ("param", "network"), "species"):
+            lhs, rhs = m[3][0][2]
+            tab_ir = (("attr", ("global", "EnzoPatch"), table), ("attr", SELF, table), ("attr", ("param", "cls"), table))
+            by_text = (lhs[0] == "attr" and lhs[1] == m[1]) or rhs in tab_ir or (rhs[0] == "call" and rhs[1] in (("global", "set"), ("global", "list"), ("global", "tuple")) and rhs[2] and rhs[2][0] in tab_ir)
+            mr2 = as_map(rhs)
+            by_species = bool(mr2) and mr2[1] == ("call", ("global", "Species"), (mr2[0],), ()) and lhs == m[1]
+            wrong = by_text or (by_species and m[3][0][1] != (op,)) or (by_species and mr2[2] not in tab_ir and mr2[2][0] == "attr" and mr2[2][2].endswith("species_name"))
+        if not ok and not wrong:
+            ctx.unrec("R11", f"EnzoPatch.render:species_{nm}", (PATCH, fn.lineno), f"how the group is selected is not understood: {found}")
+            continue
         ctx.check(ok, "R11", f"EnzoPatch.render:species_{nm}", (PATCH, fn.lineno),
                   f"network species {'in' if op == 'In' else 'not in'} the predefined list, by Species equality" if ok else
                   "the group is not `species (not) in [Species(n) for n in <predefined names>]`: compared by spelling, an electron written E- / E (or any species equal but spelled "
@@ -1267,21 +1649,66 @@ def species_order(pkg):
     one), layers = [key IR | None, ...] of the nested sorted(..) calls from the outermost inwards and members = the collection
     the innermost one sorts."""
     fn = pkg.method("Network", "species")
-    fl = Flow(fn, NETF, resolver=class_resolver(pkg, "Network"))
+    fl = Flow(fn, NETF, resolver=class_resolver(pkg, "Network"), func_resolver=lambda name: pkg.functions.get((NETF, name)))
     memo = {f.target: simp(f.value) for f in fl.facts if f.kind == "attrstore" and f.extra.get("obj") == SELF}
     out = []
     for f in fl.facts:
         if f.kind != "return":
             continue
-        v = _unwrap_seq(simp(f.value))
+        # (simplified twice: a rewrite that yields a new comprehension -- list(map(f, X)) -- exposes it to the comprehension rules)
+        v = _unwrap_seq(_through_helpers(pkg, simp(simp(f.value))))
         if v[0] == "attr" and v[1] == SELF and v[2] in memo:
-            v = _unwrap_seq(memo[v[2]])
+            v = _unwrap_seq(_through_helpers(pkg, memo[v[2]]))
         layers = []
         while v[0] == "call" and v[1] == ("global", "sorted") and len(v[2]) == 1 and not (set(dict(v[3])) - {"key"}):
             layers.append(dict(v[3]).get("key"))
-            v = _unwrap_seq(v[2][0])
+            v = _unwrap_seq(_through_helpers(pkg, v[2][0]))
         out.append((f, layers, v))
     return fn, fl, out
+
+
+def _through_helpers(pkg, v, depth=0):
+    """A value that is the call of a helper the flow could not inline (a function of network.py or a method of Network that loops,
+    fills a table, sorts a local copy in place ..) is what that helper returns for these arguments: the helper is read on its own
+    and its parameters are replaced by the arguments.  Anything else -- and a helper with several / conditional returns, *args,
+    a parameter it re-binds -- is returned unchanged (the caller then does not understand it)."""
+    from ..valueflow import subst as vsubst
+    while depth < 3:
+        w = _unwrap_seq(v)
+        g = args = kws = None
+        bare = False
+        if w[0] == "call" and w[1][0] == "global":
+            g, args, kws, bare = pkg.functions.get((NETF, w[1][1])), w[2], w[3], True
+        elif w[0] == "meth" and w[1] in (SELF, ("param", "cls")):
+            g, args, kws = pkg.resolve("Network", w[2])[1], w[3], w[4]
+        if g is None or g.args.vararg or g.args.kwarg or g.args.kwonlyargs or any(a[0] == "star" for a in args) or any(k == "**" for k, _ in kws):
+            return v
+        decs = {ast.unparse(d) for d in g.decorator_list}
+        if decs - {"staticmethod", "classmethod"}:
+            return v
+        params = [a.arg for a in g.args.args]
+        bind = {}
+        if not bare and "staticmethod" not in decs:
+            if not params:
+                return v
+            bind[("param", params[0])] = w[1]
+            params = params[1:]
+        if len(args) > len(params) or any(k not in params for k, _ in kws):
+            return v
+        bind.update({("param", p_): a for p_, a in zip(params, args)})
+        bind.update({("param", k): a for k, a in kws})
+        if any(("param", p_) not in bind for p_ in params):
+            return v                                    # a default is used: not followed
+        stored = {n.id for n in ast.walk(g) if isinstance(n, ast.Name) and isinstance(n.ctx, (ast.Store, ast.Del))}
+        if stored & set(params):
+            return v
+        gfl = Flow(g, NETF, resolver=class_resolver(pkg, "Network"), func_resolver=lambda name: pkg.functions.get((NETF, name)))
+        rets = [f for f in gfl.facts if f.kind == "return"]
+        if len(rets) != 1 or rets[0].guards or rets[0].loops:
+            return v
+        v = simp(vsubst(simp(rets[0].value), bind))
+        depth += 1
+    return v
 
 
 def _is_chain(v):
@@ -1332,13 +1759,46 @@ def union_operands(v):
     return [v]
 
 
-def _total_key(k):
-    """a sort key under which no two different species tie: no key at all (the species' own order), or a function returning a
-    tuple that ends in the species itself (or its name)"""
+def _key_verdict(k):
+    """'ok' for a sort key under which no two different species tie: no key at all (the species' own order), or a function whose
+    result is / holds as a tuple component the species itself or its name;  'bad' for a key that is understood and under which
+    different species do tie: every component is a count / an attribute other than the name;  else 'unrec'"""
     if k is None:
+        return "ok"
+    if k[0] != "lambda" or len(k[1]) != 1:
+        return "unrec"
+    x = k[1][0]
+    comps = list(k[2][1]) if k[2][0] == "tuple" and not any(e[0] == "star" for e in k[2][1]) else [k[2]]
+    if any(c in (x, ("attr", x, "name")) for c in comps):
+        return "ok"
+
+    def coarse(c):
+        """a value many species share: a number of things, an entry of a table of such, a flag / charge / derived attribute"""
+        if c[0] == "const":
+            return True
+        if c[0] == "call" and c[1] == ("global", "len") and len(c[2]) == 1:
+            return True
+        if c[0] == "meth" and c[2] == "count":
+            return True             # (an entry of a look-up table is not: what the table holds is not read here)
+        if c[0] == "attr" and c[1] == x and c[2] not in ("name", "_name"):
+            return True
+        if c[0] == "unop" and c[1] == "USub":
+            return coarse(c[2])
+        return False
+    return "bad" if comps and all(coarse(c) for c in comps) else "unrec"
+
+
+def _total_key(k):
+    return _key_verdict(k) == "ok"
+
+
+def _hash_ordered(v):
+    """the value is (a list made by iterating) a set that nothing sorted: its order is the set's iteration order"""
+    v = _unwrap_seq(v)
+    if _setness(v) == "set" and v[0] != "comp":
         return True
-    if k[0] == "lambda" and len(k[1]) == 1 and k[2][0] == "tuple" and k[2][1]:
-        return k[2][1][-1] in (k[1][0], ("attr", k[1][0], "name"))
+    if v[0] == "comp" and v[1] in ("list", "gen", "set") and len(v[3]) == 1 and v[3][0][0] is not None:
+        return v[1] == "set" or _hash_ordered(v[3][0][1])
     return False
 
 
@@ -1350,6 +1810,8 @@ def _setness(v):
         return "set"
     if k == "set" or (k == "comp" and v[1] == "set"):
         return "set"
+    if k == "comp" and v[1] in ("list", "gen") and len(v[3]) == 1 and v[3][0][0] is not None and v[2] == v[3][0][0] and _setness(_unwrap_seq(v[3][0][1])) == "set":
+        return "set"            # [s for s in <set> if ..]: a selection of the members of a set holds none of them twice
     if k == "attr" and v[1] == SELF and v[2] in ("_reactants", "_products"):
         return "set"
     if k == "binop" and v[1] in ("BitOr", "BitAnd", "Sub", "BitXor"):
@@ -1357,6 +1819,8 @@ def _setness(v):
         return "set" if a == "set" or b == "set" else a if a == b else None
     if k == "meth" and v[2] in ("union", "intersection", "difference", "symmetric_difference") and not v[4]:
         return _setness(v[1])
+    if k == "comp" and v[1] in ("list", "gen") and len(v[3]) == 1 and v[3][0][0] is not None:
+        return "list" if _setness(_unwrap_seq(v[3][0][1])) == "list" else None         # over something unknown: unknown
     if k in ("list", "tuple") or (k == "comp" and v[1] in ("list", "gen")) or (k == "binop" and v[1] == "Add"):
         return "list"
     if k == "attr" and v[1] == SELF and v[2] == "_required_species":
@@ -1382,14 +1846,12 @@ def _r9(ctx, pkg):
     # the value handed out is sorted(.., key=K) with K total.  VIOLATION only for a key (or an unsorted collection) that is understood
     verdicts = []
     for f, layers, members in rets:
-        if layers and layers[0] is not None and layers[0][0] == "lambda":
-            verdicts.append("ok" if _total_key(layers[0]) else "bad")
-        elif layers and layers[0] is not None:
-            verdicts.append("unrec")                # a key function that is not defined here
+        if layers and layers[0] is not None:
+            verdicts.append(_key_verdict(layers[0]))  # a key function that is not defined here / not understood: unrec
         elif layers:
             verdicts.append("bad")                  # sorted(..) without the connectivity / species key
         else:
-            verdicts.append("unrec" if _opaque(members) else "bad")
+            verdicts.append("bad" if _hash_ordered(members) else "unrec")      # a set handed out as it iterates / something else
     key = "Network.species:total order"
     if "bad" not in verdicts and "unrec" in verdicts:
         ctx.unrec("R9", key, (NETF, fn.lineno), f"what Network.species returns is not understood: {found}")
@@ -1404,9 +1866,9 @@ def _r9(ctx, pkg):
     verdicts = []
     for f, layers, members in rets:
         if len(layers) >= 2:
-            verdicts.append("ok" if _total_key(layers[1]) else "bad" if layers[1][0] == "lambda" else "unrec")
+            verdicts.append(_key_verdict(layers[1]))
         else:
-            verdicts.append("unrec" if _opaque(members) else "bad")
+            verdicts.append("bad" if _hash_ordered(members) else "unrec")
     key = "Network.species:sorted input"
     where = (NETF, rets[0][0].line)
     if "bad" not in verdicts and "unrec" in verdicts:
@@ -1676,3 +2138,28 @@ BENIGN += [{"name": "index-printed-through-format", "edits": [
     {"file": MACROS, "old": "#define IDX_{{ spec.alias }} {{ loop.index0 }}", "new": '#define IDX_{{ spec.alias }} {{ "%d" | format(loop.length - loop.revindex) }}'},
     {"file": PYIDX, "old": "IDX_{{ spec.alias }} = {{ loop.index0 }}", "new": 'IDX_{{ spec.alias }} = {{ "{}".format(loop.index0) }}'}]}]
 MUTANTS += [{"name": "index-printed-through-format-one-based", "file": MACROS, "old": "#define IDX_{{ spec.alias }} {{ loop.index0 }}", "new": '#define IDX_{{ spec.alias }} {{ "%d" | format(loop.index) }}', "rules": ["R4"]}]
+
+# --- third hardening wave ---------------------------------------------------------------------------------------------------------
+_LT_OLD = "            return self.name < o.name\n        return NotImplemented\n\n    def __repr__"
+MUTANTS += [
+    {"name": "species-ordered-by-basename-and-charge", "file": SP, "old": _LT_OLD, "new": "            return (self.basename, self.charge) < (o.basename, o.charge)\n        return NotImplemented\n\n    def __repr__", "rules": ["R13"]},
+    {"name": "species-ordered-by-alias", "file": SP, "old": _LT_OLD, "new": "            return o.alias > self.alias\n        return NotImplemented\n\n    def __repr__", "rules": ["R13"]},
+]
+BENIGN += [
+    {"name": "species-ordered-by-name-then-charge", "file": SP, "old": _LT_OLD, "new": "            return (self.name, self.charge) < (o.name, o.charge)\n        return NotImplemented\n\n    def __repr__"},
+    {"name": "species-order-guard-clause-and-swapped-sides", "file": SP, "old": "        if isinstance(o, Species):\n" + _LT_OLD,
+     "new": "        if not isinstance(o, Species):\n            return NotImplemented\n        return o.name > self.name\n\n    def __repr__"},
+]
+_ALIAS_FORMAT = ('            self._alias = "{}{}{}".format(\n                "G" if self.is_surface else "",\n                basename,\n'
+                 '                "I" * (self.charge + 1) if self.charge >= 0 else "M" * abs(self.charge),\n            )\n')
+_ALIAS_LOOP = "            for key, value in replacement.items():\n                basename = basename.replace(key, value)\n"
+MUTANTS += [
+    {"name": "element-case-table-applied-to-the-assembled-alias", "edits": [
+        {"file": SP, "old": _ALIAS_LOOP, "new": ""},
+        {"file": SP, "old": _ALIAS_FORMAT, "new": '            text = "{}{}{}".format(\n                "G" if self.is_surface else "",\n                basename,\n'
+         '                "I" * (self.charge + 1) if self.charge >= 0 else "M" * abs(self.charge),\n            )\n'
+         "            for key, value in replacement.items():\n                text = text.replace(key, value)\n            self._alias = text\n"}], "rules": ["R6"]},
+]
+_NSPEC_OLD = '        summary["num_of_species"] = len(net.species)\n'
+MUTANTS += [{"name": "summary-count-adds-overlapping-groups", "file": RENDER, "old": _NSPEC_OLD, "new": '        summary["num_of_species"] = len(gas_species) + len(ice_species) + len(grain_species)\n', "rules": ["R5"]}]
+BENIGN += [{"name": "summary-count-adds-gas-and-ice", "file": RENDER, "old": _NSPEC_OLD, "new": '        summary["num_of_species"] = len(gas_species) + len(ice_species)\n'}]
